@@ -24,7 +24,7 @@ def run_traced(jobs: list[dict], chunk: int = 10, timeout: int = 900) -> list[di
     def one(part):
         try:
             p = subprocess.run([common.PY, str(common.VERIF / "harness" / "trace_runner.py")], input=json.dumps(part),
-                               capture_output=True, text=True, timeout=timeout, env=env)
+                               capture_output=True, text=True, timeout=timeout * common.TMULT, env=env)
             if p.returncode != 0:
                 return [{"runner_error": p.stderr[-500:]} for _ in part]
             return json.loads(p.stdout)
@@ -314,3 +314,28 @@ def krun(chk, pid: str, grammar_texts: list[str], inputs_for, configs=("q1",), c
             chk.bump("explored grammars outside ir_wf (a lookahead directly over a forced item: the recorded C01 finding)", len(nwf))
             krun.not_wf = [descs[i] for i in nwf]
     return pairs
+
+
+# ---------------------------------------------------------------- hypotheses of the generator theorems on the shipped grammars
+def repo_grammar_terms() -> list[tuple[str, str]]:
+    """(relative path, Coq term) of every .gram file of the repository the shipped reader accepts"""
+    import glob
+    out = []
+    for p in sorted(glob.glob(str(common.REPO / "**/*.gram"), recursive=True)):
+        try:
+            g = g2c.read_grammar(open(p).read())
+            out.append((os.path.relpath(p, common.REPO), g2c.Translator().grammar(g)))
+        except Exception:       # noqa: unreadable files (tabs, other dialects) are not grammars of this tool
+            continue
+    return out
+
+
+def shipped_hypothesis(chk, pred: str, theorem: str, meaning: str):
+    """instance condition: the decidable hypothesis [pred] of a theorem about the generator holds of every shipped grammar"""
+    terms = repo_grammar_terms()
+    bad = common.run_cases(chk, "hyp_" + pred, g2c.HEADER + "From Pegen Require Import Proofs.GenRefs Proofs.GenWf Proofs.GenKw.\n",
+                           "grammar", [t for _, t in terms], pred, shard=4)
+    if bad is not None:
+        chk.oblige(f"instance condition of {theorem}: {meaning} -- holds of the {len(terms)} grammar files shipped with the "
+                   f"repository (data/python.gram and src/pegen/metagrammar.gram among them), evaluated in Coq ({pred})",
+                   not bad, json.dumps([terms[i][0] for i in bad]))
